@@ -20,6 +20,8 @@ def run(chk, tier):
             # "never builds an invalid value": instants outside MIN_UTC..=MAX_UTC (rule shared with C04)
             from props import c04
             chk.guarded(c04.r_filter, P)
+            chk.guarded(r_witness, P)
+    chk.assume("rustc's privacy and visibility checks are sound (compile-fail witnesses)")
     chk.assume("std callees without a panic model are assumed not to panic (list in evidence coverage.unmodelled); allocation failure and stack depth are out of scope")
     chk.assume("foreign TimeZone/Offset/Datelike implementations are assumed not to panic and to respect documented ranges")
     chk.assume("justified obligations (specs/justifications.txt) are trusted, one reviewed reason per site; a site whose operands change is reported again")
@@ -44,6 +46,23 @@ def r_absint(chk, P, tier, cfg):
     chk.expect(nroots >= {"default": 200, "serde": 230, "locales": 230, "nodefault": 150}[cfg], "roots", "only %d fallible entry points found" % nroots)
     eng = res["engine"]
     chk.extra.setdefault("unmodelled", {})[cfg] = dict(eng.unmodelled)
+
+
+def r_witness(chk, P):
+    """the type invariants E1 assumes on read hold for values built outside the crate only if such values cannot be built
+    there: compile-fail witnesses (rustc's privacy checks on the current tree), each with a compiling twin"""
+    import witness
+    chk.rule("WITNESS.closed", "invariant-carrying types are closed: raw construction / field access from outside the crate fails to compile (E0451/E0616/E0423/E0603/E0624), "
+                               "the twin that differs only in the offending line compiles", floor=35)
+    passed, failed, tests, raw = witness.run()
+    seen = {}
+    for name, kind, ok in sorted(tests):
+        item = name.split(":")[0]
+        seen[(item, kind)] = seen.get((item, kind), 0) + 1
+        inst = "%s %s #%d" % (item, kind, seen[(item, kind)])
+        chk.expect(ok, inst, "witness doctest failed: a `compile fail` witness now compiles (the type is no longer closed) or its twin no longer compiles (witness is vacuous)\n" + raw[-600:])
+    if failed != 0 and all(ok for _, _, ok in tests):
+        chk.bad("run", "witness crate did not build or run: " + raw[-600:])
 
 
 RENDERERS = ["datetime::DateTime::<Tz>::to_rfc3339", "datetime::DateTime::<Tz>::to_rfc3339_opts", "datetime::DateTime::<Tz>::to_rfc2822",
